@@ -724,7 +724,14 @@ are then overwritten by the frame (not erased: longer rows would leave residue).
 demands (`hfirst`) that the first write finds at least `n` BLANK rows above the cursor (`n ≤ k`; the frame then
 occupies `n` of them: `j = k - n` blank rows remain), or that nothing at all stands above the blank rows
 (`restRev = []`: the cursor stops at the top row, as on the harness's terminal, `Scr.up`).  Without it
-the row above the bar is lost - see the example after the theorems. -/
+the row above the bar is lost - see the example after the theorems.
+
+Not proved here: (1) `hframes` is a hypothesis on the EVENTS of the history (decided by `framesFitB`, answered by
+the driver as `screen.fits`); that it follows from inputs without line breaks / CR / ESC in messages and bar
+characters (the multi-line analogue of `run_clean`) is not derived.  It cannot be dropped: a message with a line
+break breaks the statement (last example).  (2) The terminal reads the output write by write (`Scr.write`: each
+`stream.write` is one command or one text, which is how `_overwrite` sends them), not byte by byte; the rows it
+ends with are compared with the harness's byte-level emulator on every generated ANSI case. -/
 
 /-- **ANSI output, any format, any history with setters: the terminal shows exactly the latest frame.**
 For every prefix `evs1` of a history on an ANSI output that is not quiet - multi-line formats, `set_format`
